@@ -70,6 +70,15 @@ func dump(b *strings.Builder, v reflect.Value, depth int) {
 			dump(b, v.Index(i), depth+1)
 			b.WriteString(",")
 		}
+		if v.Kind() == reflect.Slice && v.Cap() > v.Len() && v.Cap()-v.Len() <= 64 {
+			// the spare capacity is the caller's memory too (another slice of the tree may alias it)
+			b.WriteString("|spare:")
+			w := v.Slice(0, v.Cap())
+			for i := v.Len(); i < v.Cap(); i++ {
+				dump(b, w.Index(i), depth+1)
+				b.WriteString(",")
+			}
+		}
 		b.WriteString("]")
 	case reflect.Map:
 		if v.IsNil() {
@@ -348,6 +357,31 @@ func (c *PureGoCase) runImpl() string {
 	var cl *js.Schema
 	guarded(func() { cl = c.S.CloneSchemas() })
 	_ = cl
+	// Validate twice with every instance of a fixed menu: the same verdicts, the tree unchanged
+	lawV := "1"
+	var rs *js.Resolved
+	guarded(func() { rs, _ = c.S.Resolve(nil) })
+	if rs != nil {
+		menu := []any{nil, true, 1.0, 1.5, "x", "", []any{}, []any{1.0, "a"}, map[string]any{}, map[string]any{"a": 1.0, "b": "x"}, map[string]any{"a": 1.5, "c": nil, "d": []any{1.0}}}
+		var v1, v2 strings.Builder
+		for round := 0; round < 2; round++ {
+			for _, inst := range menu {
+				ok := false
+				guarded(func() { ok = rs.Validate(inst) == nil })
+				if round == 0 {
+					fmt.Fprint(&v1, ok)
+				} else {
+					fmt.Fprint(&v2, ok)
+				}
+			}
+			if snapshot(c.S) != c.snap0 {
+				lawS = "0"
+			}
+		}
+		if v1.String() != v2.String() {
+			lawV = "0"
+		}
+	}
 	m2, e2 := json.Marshal(c.S)
 	if (e1 == nil) != (e2 == nil) || !bytes.Equal(m1, m2) {
 		lawM = "0"
@@ -355,7 +389,7 @@ func (c *PureGoCase) runImpl() string {
 	if snapshot(c.S) != c.snap0 {
 		lawS = "0"
 	}
-	return base + " law_schema_unchanged=" + lawS + " law_marshal_same=" + lawM
+	return base + " law_schema_unchanged=" + lawS + " law_marshal_same=" + lawM + " law_validate_same=" + lawV
 }
 
 func init() {
